@@ -510,6 +510,35 @@ def uiStarters (ui starters : List Nat) : List Nat := if ui.isEmpty then starter
 def Wiring.toGraph (w : Wiring) (lab : Sig → Label) (starters : List Nat) (sigs : List Sig) : Graph :=
   { conns := w.out, accConns := w.accIn, lab := lab, starters := starters, sigs := sigs }
 
+/-! ## Part D — a state round trip of the composite (`__getstate__` / `__setstate__`: pickle, save + load, a composite
+coming back from an executor)
+
+Channels do not carry their connections; the composite stores them as label strings and re-makes them:
+`_child_signal_connections` — seen from the receiving side, child by child, `run` before `accumulate_and_run`, each
+list front to back (= `runPairs`) — and `_child_signal_firing_order` — the same connections seen from the emitting
+side, signal by signal, each list front to back. `__setstate__` re-makes the connections from the first list, going
+through it backwards (connecting prepends), and then puts every emitter's list into the saved firing order. -/
+
+/-- `_child_signal_firing_order`; `sigs` = the emitting channels of the children, child by child -/
+def Wiring.firingOrder (w : Wiring) : List Sig → List (Sig × Recv)
+  | [] => []
+  | s :: rest => (w.out s).map (fun r => (s, r)) ++ firingOrder w rest
+
+/-- `_restore_firing_order` for one emitter: the saved receivers that are connected, then whatever else is connected -/
+def reorder (saved cur : List Recv) : List Recv :=
+  saved.filter (fun r => cur.contains r) ++ cur.filter (fun r => !saved.contains r)
+
+def savedFor (firing : List (Sig × Recv)) (s : Sig) : List Recv :=
+  (firing.filter (fun p => p.1 == s)).map (fun p => p.2)
+
+/-- `__setstate__` of the connections. `transposed = false`: the tree as it is; `true`: seeded change C02-4 — the
+firing order is "derived" from the receiving-side list (`(out, inp) for inp, out in _child_signal_connections`) -/
+def Wiring.roundtrip (transposed : Bool) (w : Wiring) (children : List Nat) (sigs : List Sig) : Wiring :=
+  let stored := w.runPairs children
+  let firing := if transposed then stored else w.firingOrder sigs
+  let w1 := Wiring.empty.connectAll stored.reverse
+  { w1 with out := fun s => if sigs.contains s then reorder (savedFor firing s) (w1.out s) else w1.out s }
+
 /-! ### Finite presentation of a signal graph (what the harness reads off the real objects) and the
 decidable counterpart of the hypotheses `WF` of `C02_refines_queue` (soundness: `FinGraph.check_sound`) -/
 
